@@ -307,7 +307,7 @@ func reassemble(stream []byte, pid uint16) ([]byte, []*ref.TSPacket, error) {
 }
 
 func TestC12Encode(t *testing.T) {
-	rec := obs.NewRecorder("C12", "encode", "rapid: PES headers from the writer's supported subset (no previous CRC, no pack header, no header stuffing) written with Muxer.WriteData; the PES bytes reassembled from the output with the independent TS decoder must equal the reference encoding; PES_packet_length must be the actual length, or 0 where ISO allows (video stream ids 0xE0-0xEF and 0xFD) or demands it (> 65535); non-trivial = >= 2 optional parts; distinct by reference PES bytes")
+	rec := obs.NewRecorder("C12", "encode", "rapid: PES headers from the writer's supported subset (no previous CRC, no pack header, no header stuffing) written with Muxer.WriteData (30% of the headers without extension carry extension sub-field flags and values in the struct, which must not reach the header or its lengths); the PES bytes reassembled from the output with the independent TS decoder must equal the reference encoding; PES_packet_length must be the actual length, or 0 where ISO allows (video stream ids 0xE0-0xEF and 0xFD) or demands it (> 65535); non-trivial = >= 2 optional parts; distinct by reference PES bytes")
 	defer rec.Flush()
 	rapid.Check(t, func(t *rapid.T) {
 		p := &ref.PES{Length: -1}
@@ -352,6 +352,27 @@ func TestC12Encode(t *testing.T) {
 		if stray {
 			d.Header.OptionalHeader = &astits.PESOptionalHeader{MarkerBits: 2, PTSDTSIndicator: 3, PTS: &astits.ClockReference{Base: 5}, DTS: &astits.ClockReference{Base: 4}}
 		}
+		strayExt := false
+		if p.Opt != nil && p.Opt.Ext == nil && gen.Chance(t, 30, "strayext") {
+			// PES_extension_flag is 0: whatever the flags and values of the extension sub-fields in the struct, none is
+			// in the header, and PES_header_data_length / PES_packet_length must say so
+			strayExt = true
+			oh := d.Header.OptionalHeader
+			k := rapid.IntRange(1, 15).Draw(t, "strayextflags")
+			if k&1 != 0 {
+				oh.HasPrivateData, oh.PrivateData = true, gen.Bytes(t, 16, "strayprivate")
+			}
+			if k&2 != 0 {
+				oh.HasProgramPacketSequenceCounter, oh.PacketSequenceCounter = true, 5
+			}
+			if k&4 != 0 {
+				oh.HasPSTDBuffer, oh.PSTDBufferSize = true, 77
+			}
+			if k&8 != 0 {
+				oh.HasExtension2, oh.Extension2Data = true, gen.Bytes(t, rapid.IntRange(0, 20).Draw(t, "strayext2len"), "strayext2")
+			}
+			rec.Class("extension_subfield_flags_without_extension_flag")
+		}
 		if _, err := m.WriteData(&astits.MuxerData{PID: pid, PES: d}); err != nil {
 			t.Fatalf("WriteData error: %v\nmodel %s", err, obs.Canon(p))
 		}
@@ -362,7 +383,7 @@ func TestC12Encode(t *testing.T) {
 		exact := p.EncodedLength()
 		want := p.Encode2(exact)
 		if len(got) != len(want) || len(got) < 6 || !bytes.Equal(got[:4], want[:4]) || !bytes.Equal(got[6:], want[6:]) {
-			t.Fatalf("PES bytes written %s\nreference         %s\nstream id %#x, optional header struct supplied although the id has none: %v\nmodel %s", hexHead(got, 64), hexHead(want, 64), p.StreamID, stray, obs.Canon(p.Opt))
+			t.Fatalf("PES bytes written %s\nreference         %s\nstream id %#x, optional header struct supplied although the id has none: %v, extension sub-field flags set without the extension flag: %v\nmodel %s", hexHead(got, 64), hexHead(want, 64), p.StreamID, stray, strayExt, obs.Canon(p.Opt))
 		}
 		gl := int(got[4])<<8 | int(got[5])
 		videoID := p.StreamID >= 0xe0 && p.StreamID <= 0xef || p.StreamID == 0xfd
